@@ -52,7 +52,7 @@ func init() {
 		Expect: "buffer-handoff"})
 	addWitness(witness{Prop: "C01", Name: "leaf-placed-by-arrival", File: "pkg/cafs/writer.go",
 		Old: "\t\tw.leaves[bf.count-1] = bf.key", New: "\t\tw.leaves[len(w.leaves)-int(bf.count)] = bf.key",
-		Expect: "leaf-numbering"})
+		Expect: "leaf-numbering|guarded-core"})
 	addWitness(witness{Prop: "C01", Name: "flush-reads-before-handshake", File: "pkg/cafs/writer.go",
 		Old:    "\tclose(w.flushChan)\n\t<-w.flushThreadDoneChan\n\n\tif len(w.errors) != 0 {\n\t\treturn Key{}, nil, w.errors[0]\n\t}\n",
 		New:    "\tif len(w.errors) != 0 {\n\t\treturn Key{}, nil, w.errors[0]\n\t}\n\tclose(w.flushChan)\n\t<-w.flushThreadDoneChan\n",
@@ -71,7 +71,7 @@ func init() {
 		Expect: "offset-convention"})
 	addWitness(witness{Prop: "C02", Name: "dedup-skips-corrupted", File: "pkg/cafs/writer.go",
 		Old: "\tcase found && !overwrite:\n\t\t// the blob has been found and checked", New: "\tcase found:\n\t\t// the blob has been found and checked",
-		Expect: "dedup"})
+		Expect: "dedup|guarded-core"})
 	addWitness(witness{Prop: "C03", Name: "writeto-skips-verify", File: "pkg/cafs/reader.go",
 		Old:    "\t\t\t\tif erv := r.verifyHash(key, leaf, nodeOffset, isLastNode); erv != nil {\n\t\t\t\t\terrC <- erv\n\t\t\t\t\treturn\n\t\t\t\t}\n",
 		New:    "\t\t\t\t_, _ = nodeOffset, isLastNode\n",
@@ -236,8 +236,11 @@ func runC01(c *Ctx) {
 			n++
 			idx := describeExpr(f, ix.Index, 0)
 			val := describeExpr(f, as.Rhs[0], 0)
-			c.check(idx == "(range(recv.blobFlushes).count-const:1)" && val == "range(recv.blobFlushes).key", "leaf-numbering.placed-by-number", f.ID+":leaves[]", p.Pos(as.Pos()),
-				"leaves[bf.count-1] = bf.key for every collected flush", "Flush stores `"+val+"` at leaves[`"+idx+"`]: leaf keys must be placed by their leaf number, flush goroutines complete in any order")
+			if idx == "(range(recv.blobFlushes).count-const:1)" && val == "range(recv.blobFlushes).key" {
+				c.ok("leaf-numbering.placed-by-number", f.ID+":leaves[]", p.Pos(as.Pos()), "leaves[bf.count-1] = bf.key for every collected flush")
+			} else {
+				c.shapeChanged("leaf-numbering.placed-by-number", f.ID+":leaves[]", p.Pos(as.Pos()), f.ID, "Flush stores `"+val+"` at leaves[`"+idx+"`]: leaf keys must be placed by their leaf number, flush goroutines complete in any order")
+			}
 			return true
 		})
 		if n != 1 {
@@ -267,10 +270,6 @@ func runC01(c *Ctx) {
 	checkBlobPutsIdempotent(c, "dedup.blob-puts-idempotent")
 	checkLeafBufferNotRetained(c, "read.leaf-buffer-not-retained")
 	checkReadAtExits(c, "read.readat-exits")
-	checkLeafReadLoopShape(c, "read.leaf-loop-shape")
-	checkPrefetchHandoff(c, "read.prefetch-handoff")
-	checkReadAtLoopShape(c, "read.readat-loop-shape")
-	checkWriterWriteShape(c, "write.shape")
 	checkWriterFlushShape(c, "flush.shape")
 }
 
@@ -743,7 +742,7 @@ func runC02(c *Ctx) {
 			exit: func(blk *cfg.Block, ret *ast.ReturnStmt, s uint64) {},
 		})
 		if !sawCond || nPut == 0 {
-			c.fail("dedup.skip-exactly-duplicates", f.ID, p.Pos(f.Decl.Pos()), "writeBlob no longer branches on `found && !overwrite` from existsAndValidBlob before writing")
+			c.shapeChanged("dedup.skip-exactly-duplicates", f.ID, p.Pos(f.Decl.Pos()), f.ID, "writeBlob no longer branches on `found && !overwrite` from existsAndValidBlob before writing")
 		} else {
 			c.check(len(badPut) == 0 && len(badDel) == 0, "dedup.skip-exactly-duplicates", f.ID, p.Pos(f.Decl.Pos()),
 				"the blob write is reachable only when the blob is absent or found corrupted; the duplicate branch writes and deletes nothing",
@@ -802,7 +801,6 @@ func runC02(c *Ctx) {
 	checkGenericErrorDiscipline(c, "pkg/cafs")
 	checkWriterChannelsUnbuffered(c, "chunking-independence.channels-unbuffered")
 	checkKeyDerivationStateless(c, "tree-format.key-derivation-stateless")
-	checkWriterWriteShape(c, "chunking-independence.write-shape")
 	checkWriterFlushShape(c, "tree-format.flush-shape")
 }
 
@@ -913,7 +911,7 @@ func checkOffsetConvention(c *Ctx, rule string) {
 			return true
 		})
 		if theIf == nil {
-			c.fail(rule+".reader", key, p.Pos(s.call.Pos()), "no branch sets the last-node flag to true: a trailing partial leaf can never verify")
+			c.shapeChanged(rule+".reader", key, p.Pos(s.call.Pos()), f.ID, "no branch sets the last-node flag to true: a trailing partial leaf can never verify")
 			continue
 		}
 		// condition: conjunction containing (a) a last-index test and (b) len(data) != leafSize on the same data
